@@ -109,7 +109,7 @@ Definition flush_current (c : cfg) (s : st) : outcome * st :=
   let dgf := b_dgflight s + extra in
   (ODone,
    mkSt 0 (b_bcap s) (b_fcap s) dgf true (b_dgpad s) (b_flight s + dgf) (b_total s + len)
-        (b_cur s) (b_hascrypto s) (b_pn s) (b_dgrams s ++ [len]) (b_pkts s) (g_hasinit s)
+        (b_cur s) (b_hascrypto s) (b_pn s) (b_dgrams s ++ [len]) (b_pkts s) false
         (g_log s ++ [mkDg len (g_hasinit s) (b_fcap s) (b_bcap s) (b_tell s)])).
 
 (* _end_packet for the current packet p (self._packet is not None) *)
